@@ -1,3 +1,4 @@
+import SpVerif.Model.Proto
 /-!
 # Layer S (part 1) — renumbering of the non-empty output partitions (`dask.py: pack_partitions_to_parquet`,
 "Handle empty partitions").  Core Lean only.
@@ -31,5 +32,15 @@ def moves (nonEmpty : List Nat) : List (Nat × Nat) :=
 
 /-- run the moves in a given order (what independent tasks may do) -/
 def compactIn (order : List (Nat × Nat)) (nonEmpty : List Nat) : St := order.foldl applyMove (initial nonEmpty)
+
+open SpVerif.Proto in
+/-- `packfs [non-empty output partitions]` → the moves in order, and the final occupancy `(index, original partition)` -/
+def run : List V → Option String
+  | [.w "packfs", .l ne] => do
+    let xs ← nats? ne
+    let mv := V.l ((moves xs).map (fun m => V.l [V.i m.1, V.i m.2]))
+    let fin := V.l ((compact xs).map (fun e => V.l [V.i e.1, V.i e.2]))
+    pure (V.l [mv, fin]).show
+  | _ => none
 
 end SpVerif.PackFS
